@@ -2,7 +2,7 @@
 
 
 def run(c):
-    c.rule = ("two families of generated cases, each executed on the implementation and re-evaluated on the Coq model: "
+    c.rule = ("three families of cases, each executed on the implementation and re-evaluated on the Coq model: "
               "(build) a real produceSet driven in-package: 1-11 messages over 1-3 partitions of 1-2 topics x payload classes "
               "{nil, empty, 1 B, binary, text, 64-70 KB} for key and value x header lists (nil, empty, 1-4 headers with nil/empty/300 B parts) x "
               "timestamps (absent, whole ms, sub-ms part, EARLIER than the first of the batch, the epoch, monotonic reading, other "
@@ -14,8 +14,12 @@ def run(c):
               "mock brokers with per-partition logs starting at arbitrary end offsets, leaderless lower-numbered partitions, a scripted "
               "non-consistency / per-message-consistency partitioner, fault scripts (retriable with and without append, fatal, dropped "
               "connection, idempotent duplicate answered with the original base), metadata changing after the first fault; compared: "
-              "every success (Partition, Offset) against the model's routing and the model's log of the decoded requests. "
-              "Non-trivial = at least one accepted message (build) / one success (e2e); distinct = distinct case JSON")
+              "every success (Partition, Offset) against the model's routing and the model's log of the decoded requests; first in the "
+              "e2e corpus: the steered replay of the chaser-accepted witness. (recv) every message a broker worker received during "
+              "the e2e scenarios (hook bp.recv: flags, closing, currentRetries entry) and what the worker did with it (consumed / bounced / "
+              "went on to buffer.add / add refused it) against the model's recv_decision. "
+              "Non-trivial = at least one accepted message (build) / one success (e2e) / a (flags, state, outcome) class not seen before "
+              "(recv); distinct = distinct case JSON")
     c.trust("correspondence harness go/harness/cmd/c04corr + go/shims/c04_shim.go (generators, printing of sarama values as Coq terms, "
             "the scripted mock cluster, (bgen n seed) notation for long payloads after checking the bytes)")
     c.trust("Coq 8.16.1 kernel + vm_compute (evaluation of the model on the harness cases)")
